@@ -952,7 +952,8 @@ def has_ignore_comment(source: str, rng: Range) -> bool:
     pattern = re.compile(r"#\s*pyrefact\s*:\s*(skip_file|ignore)")
 
     character_count = 0
-    for line in source.splitlines(keepends=True):
+    # The lines that the parser sees: a form feed does not end a line
+    for line in io.StringIO(source, newline="").readlines():
         line_start = character_count
         line_end = character_count = line_start + len(line)
 
